@@ -505,6 +505,8 @@ class StmtsMixin:
             st.names = saved_names
             return
         st.names = saved_names
+        if ex[0] == 'return':
+            st.names = dict(ex[1].names)       # the locals of the returning path stay nameable (return hints, postconditions)
         if ex[0] == 'break': raise BreakEx(ex[2])
         if ex[0] == 'continue': raise ContinueEx(ex[2])
         if ex[0] == 'return': raise ReturnEx(ex[2])
